@@ -144,6 +144,9 @@ def constructs(inc):
         ('splice3', ['char t%d \\', ' \\', ' ;']), ('define', ['#define M%d 3']), ('if0', ['#if 0', 'char dead%d;', 'garbage here ((', '#endif']),
         ('ifelse', ['#ifdef UNDEFINED_X', 'char dead2%d;', '#else', 'char live%d;', '#endif']), ('macro_use', ['#define K%d 1', 'const char u%d = K%d;']),
         ('include_c', ['#include "h_ok.h"']), ('include_asm', ['#include "a_ok.inc"']), ('func', ['void fn%d() {', '  X = 1;', '}']),
+        # splices in lines that produce no output of their own (their continuation lines must still be counted)
+        ('splice_in_block', ['/* a macro \\', '   continued \\', '   end */']), ('splice_in_linecomment', ['// note \\', 'still the comment']),
+        ('splice_define', ['#define LONG%d 1 + \\', '  2']), ('splice_in_if0', ['#if 0', 'dead \\', 'dead', '#endif']), ('splice_blank', [' \\', '']),
     ]
 
 
